@@ -3,6 +3,7 @@ Engine A: for d=2..6 the slot table of EvolutionProxy::compute, the sin/cos tabl
 PrepareEvolve(buffer,t) and the table of FastEvolutionProxy::compute fed with that buffer are
 extracted and compared with exp(iHt) A exp(-iHt) computed over the basis of C01, H being the
 diagonal part of the operator vector."""
+from guarded import same, explain
 from astdb import AnalysisBroken
 from interp import Interp, Obj, Cell, Thrown, Ptr, Region, UNDEF
 from kernels import make_suv
@@ -84,7 +85,7 @@ def check_direct(db, rep, tier):
                 wre, wim = oracle[k]
                 want = {'AssignWrapper': wre, 'IncrementWrapper': T + wre, 'DecrementWrapper': T - wre}[w]
                 got = tgt.cell(k).value
-                if isinstance(got, Poly) and got.equals(want) and wim.is_zero():
+                if same(got, want) and wim.is_zero():
                     rep.ok('A.evol.table')
                     if k == 1:
                         rep.sample('A.evol.table', 'd=%d slot 1: %s' % (d, got))
@@ -215,7 +216,7 @@ def check_prepare_and_fast(db, rep, tier):
                 wre, wim = oracle[k]
                 want = {'AssignWrapper': wre, 'IncrementWrapper': T + wre, 'DecrementWrapper': T - wre}[w]
                 got = tgt.cell(k).value
-                if isinstance(got, Poly) and got.equals(want):
+                if same(got, want):
                     rep.ok('A.evol.fast')
                 else:
                     diffs = got.diff_terms(want) if isinstance(got, Poly) else [repr(got)]
